@@ -530,6 +530,81 @@ def pairs(code):
     return out
 
 
+# ------------------------------------------------------------------ accepted orthographic variants (C01)
+def fr_regional(n, eighty):
+    """Belgian / Swiss tens: septante, huitante|octante|quatre-vingts, nonante"""
+    def r99(m):
+        if m < 70:
+            return fr_99(m)
+        t, u = divmod(m, 10)
+        ten = {7: "septante", 8: eighty, 9: "nonante"}[t]
+        if ten == "quatre-vingts":
+            return fr_99(m)
+        if u == 0:
+            return ten
+        return ten + (" et un" if u == 1 else "-" + FR1[u])
+
+    def r999(m, plural_ok=True):
+        w = []
+        h, r = divmod(m, 100)
+        if h == 1:
+            w.append("cent")
+        elif h > 1:
+            w += [FR1[h], "cents" if (r == 0 and plural_ok) else "cent"]
+        if r:
+            x = r99(r)
+            if not plural_ok and x == "quatre-vingts":
+                x = "quatre-vingt"
+            w.append(x)
+        return w
+    if n == 0:
+        return "zéro"
+    g = [(n // 1000 ** k) % 1000 for k in range(4)]
+    w = []
+    if g[3]:
+        w += r999(g[3]) + ["milliard" if g[3] == 1 else "milliards"]
+    if g[2]:
+        w += r999(g[2]) + ["million" if g[2] == 1 else "millions"]
+    if g[1]:
+        w += ([] if g[1] == 1 else r999(g[1], plural_ok=False)) + ["mille"]
+    if g[0]:
+        w += r999(g[0])
+    return " ".join(w)
+
+
+def variants(code, n):
+    base = SPELL[code](n)
+    if base is None:
+        return []
+    out = []
+    if code == "en":
+        out.append(base.replace("-", " "))
+        # British "and": after hundred inside a group, and before a last group below one hundred
+        w = []
+        for k, name in ((3, "billion"), (2, "million"), (1, "thousand"), (0, None)):
+            g = (n // 1000 ** k) % 1000
+            if not g:
+                continue
+            part = en_999(g)
+            if g >= 100 and g % 100:
+                part = part[:2] + ["and"] + part[2:]
+            elif k == 0 and g < 100 and n >= 1000:
+                part = ["and"] + part
+            w += part + ([name] if name else [])
+        out.append(" ".join(w))
+    if code == "fr":
+        out.append(base.replace("-", " "))
+        for e in ("huitante", "octante", "quatre-vingts"):
+            out.append(fr_regional(n, e))
+    if code == "pt":
+        out.append(base.replace("dezasseis", "dezesseis").replace("dezassete", "dezessete").replace("dezanove", "dezenove").replace("catorze", "quatorze"))
+    if code == "de":
+        out.append(base.replace("tausend", "tausend ").replace("  ", " ").strip())     # groups said apart
+    if code == "es":
+        out.append(base.replace("dieciséis", "dieciseis").replace("veintidós", "veintidos").replace("veintitrés", "veintitres").replace("veintiséis", "veintiseis"))
+    return [v for v in dict.fromkeys(out) if v and v != base]
+
+
 DIGITS = {"en": "zero one two three four five six seven eight nine", "fr": "zéro un deux trois quatre cinq six sept huit neuf",
           "es": "cero uno dos tres cuatro cinco seis siete ocho nueve", "pt": "zero um dois três quatro cinco seis sete oito nove",
           "it": "zero uno due tre quattro cinque sei sette otto nove", "de": "null eins zwei drei vier fünf sechs sieben acht neun",
@@ -562,6 +637,14 @@ if __name__ == "__main__":
     if len(sys.argv) > 2 and sys.argv[2] == "dictate":
         for code in (sys.argv[3:] or list(SPELL)):
             print("\n".join(dictate(code, int(sys.argv[1]))))
+        sys.exit(0)
+    if len(sys.argv) > 2 and sys.argv[2] == "variants":
+        rnd = random.Random(int(sys.argv[1]) + 29)
+        ns = sorted(set(list(range(0, 1201)) + [rnd.randrange(10 ** rnd.randint(3, 12)) for _ in range(600)]))
+        for code in (sys.argv[3:] or ["en", "fr", "pt", "de", "es"]):
+            for n in ns:
+                for v in variants(code, n):
+                    print(f"{code}\t{v}\t{n}")
         sys.exit(0)
     if len(sys.argv) > 2 and sys.argv[2] == "pairs":
         for code in (sys.argv[3:] or list(SPELL)):
